@@ -152,6 +152,10 @@ def parse_expression(expression: str) -> ast.AST | UndefinedType:
 
 format_methods = {'format', 'format_map'}
 
+# attributes of generators, coroutines, frames, tracebacks and code objects:
+# the frame of a running generator leads back to the caller's globals
+introspection_prefixes = ('gi_', 'cr_', 'ag_', 'f_', 'tb_', 'co_')
+
 
 def check_format_string(fmt: str) -> None:
     """str.format() resolves the attribute paths written in its fields at run time"""
@@ -162,6 +166,8 @@ def check_format_string(fmt: str) -> None:
     for _, field_name, format_spec, _ in fields:
         if field_name and '.__' in field_name:
             raise SecurityError(f'Dunder access prohibited: {{{field_name}}}')
+        if field_name and any(f'.{p}' in field_name for p in introspection_prefixes):
+            raise SecurityError(f'Introspection prohibited: {{{field_name}}}')
         if format_spec:
             check_format_string(format_spec)
 
@@ -231,6 +237,11 @@ def _check_safe_eval_cached(
 
         if isinstance(node, ast.Attribute) and node.attr.startswith('__'):
             raise SecurityError(f"Dunder access prohibited: .{node.attr}")
+
+        if isinstance(node, ast.Attribute) and node.attr.startswith(
+            introspection_prefixes
+        ):
+            raise SecurityError(f"Introspection prohibited: .{node.attr}")
 
         # NOTE: ast.walk() visits a call before the attribute it calls
         match node:
